@@ -273,16 +273,32 @@ func check(c Case) (o ev.Outcome) {
 			m.fail("filed-under-name", "not-filed", "%s %q accepted but not filed under its name", s.Keyword, s.Argument)
 			return
 		}
-		// with several revisions of one name in the text the bare key may hold another one; find ours by statement
-		if d := stmtEqual(mod.Statement(), s); d != "" {
+		// with several (sub)modules of one name in the text the bare key may hold another one; ours is the one
+		// whose statement stands where s stands (the comparison of the whole subtree is the mirror's business:
+		// a registry entry whose statement tree is damaged must not pass for "another module")
+		same := func(x *yang.Module) bool {
+			st := x.Statement()
+			return st != nil && st.Keyword == s.Keyword && st.Argument == s.Argument && st.Location() == s.Location()
+		}
+		if !same(mod) {
 			found := false
 			for _, cand := range reg {
-				if stmtEqual(cand.Statement(), s) == "" {
+				if same(cand) {
 					mod, found = cand, true
 					break
 				}
 			}
 			if !found {
+				twins := 0
+				for _, x := range ss {
+					if x.Keyword == s.Keyword && x.Argument == s.Argument {
+						twins++
+					}
+				}
+				if twins < 2 {
+					m.fail("filed-under-name", "filed-module-is-another", "%s %q at %s accepted, but what is filed under its name was built from another statement", s.Keyword, s.Argument, s.Location())
+					return
+				}
 				// the bare name is held by another accepted text of that name (a later revision): this
 				// module is not reachable through the registry, so its tree cannot be observed here
 				o.OutOfClaim = "accepted module of a name whose registry entry denotes another revision (not observable; C13 decides the binding)"
@@ -301,6 +317,8 @@ type gen struct {
 	t      *rapid.T
 	budget int
 	n      int
+	// sprinkle: extension statements are strewn over the tree while it is grown
+	sprinkle bool
 }
 
 var metaNames = []string{"Name", "Statement", "Parent", "Ext"}
@@ -348,6 +366,19 @@ func (g *gen) stmt(k string, depth int) *rfc6.Node {
 		}
 	}
 	// children of the same keyword stay in generated order; mix the rest
+	// extension statements between them: singly and in runs, before, between and after the known substatements
+	if g.sprinkle && rapid.IntRange(0, 3).Draw(g.t, "extensions-here") == 0 {
+		k := rapid.IntRange(1, 4).Draw(g.t, "extensions")
+		for j := 0; j < k; j++ {
+			c := &rfc6.Node{Keyword: rapid.SampledFrom([]string{"p:ext", "oc-ext:posix-pattern", "x:y", "p:ext"}).Draw(g.t, "sprinkled-keyword")}
+			c.Arg, c.HasArg = g.arg("")
+			if rapid.IntRange(0, 3).Draw(g.t, "sprinkled-children") == 0 {
+				c.Subs = append(c.Subs, &rfc6.Node{Keyword: rapid.SampledFrom([]string{"foo", "leaf", "q:r"}).Draw(g.t, "sprinkled-child"), HasArg: true, Arg: "v"})
+			}
+			i := rapid.IntRange(0, len(n.Subs)).Draw(g.t, "sprinkle-at")
+			n.Subs = append(n.Subs[:i:i], append([]*rfc6.Node{c}, n.Subs[i:]...)...)
+		}
+	}
 	return n
 }
 
@@ -432,6 +463,7 @@ func (g *gen) perturb(f []*rfc6.Node) []*rfc6.Node {
 
 func generate(t *rapid.T) Case {
 	g := &gen{t: t, budget: rapid.IntRange(3, 40).Draw(t, "budget")}
+	g.sprinkle = rapid.IntRange(0, 2).Draw(t, "sprinkle-extensions") == 0
 	root := rapid.SampledFrom([]string{"module", "module", "module", "submodule"}).Draw(t, "root")
 	f := []*rfc6.Node{g.stmt(root, 0)}
 	np := rapid.IntRange(0, 3).Draw(t, "perturbations")
@@ -456,7 +488,7 @@ func TestCheck(t *testing.T) {
 	ev.Run(t, ev.Spec[Case]{
 		ID:    "C03",
 		Level: "exploration",
-		Rule: "statement trees rooted at module/submodule, grown along the (parent keyword -> child keyword, multiplicity) table read by reflection from goyang's AST structs so that most are accepted and deep, then perturbed 0-2 times: a keyword not valid in that context (another YANG keyword, a random identifier, a two-colon name, the meta-names Name/Statement/Parent/Ext), a second occurrence of a child, removal of a child, prefixed extension statements with and without arguments and children at any level, another top-level statement, a keyword changed in place. " +
+		Rule: "statement trees rooted at module/submodule, grown along the (parent keyword -> child keyword, multiplicity) table read by reflection from goyang's AST structs so that most are accepted and deep, then perturbed 0-2 times: a keyword not valid in that context (another YANG keyword, a random identifier, a two-colon name, the meta-names Name/Statement/Parent/Ext), a second occurrence of a child, removal of a child, prefixed extension statements with and without arguments and children at any level (a third of the trees are also grown with extension statements strewn singly and in runs between the known substatements), another top-level statement, a keyword changed in place. " +
 			"Oracle (a function of the text alone): Modules.Parse returns an error or nil without panicking; if nil, every top-level statement is a (sub)module filed under its name and a reflection walk finds the nodes in one-to-one correspondence with an independently parsed statement tree: back-reference structurally the statement (keyword, argument, position, subtree), name = argument, parent link = enclosing node, each substatement exactly once in the field of its keyword in source order or in the extensions list, counts equal (nothing invented or dropped); pinned mandatory substatements present. " +
 			"Non-trivial = accepted with >= 6 nodes of >= 3 different kinds, or rejected with >= 3 statements, or a panic; distinct by text",
 		Assumptions: []string{
